@@ -33,7 +33,7 @@ def is_query_pos(e):
 def run(chk):
     f = F.load()
     g, ip = P.shared(f)
-    chk.rules = ["R-VIS", "R-COVER", "R-OFFSET", "R-TOPDOWN", "R-OPAQUE", "R-TOPMOST"]
+    chk.rules = ["R-VIS", "R-COVER", "R-OFFSET", "R-TOPDOWN", "R-OPAQUE", "R-TOPMOST", "R-STATE-RESET"]
     chk.assumptions = ["Layer::get_width/get_height return size.width/size.height (checked through their return summaries)",
                        "transparent-colour merging values are not decided"]
     b = f.bodies.get("<buffers::Buffer as TextPane>::get_char")
@@ -268,6 +268,63 @@ def run(chk):
                 chk.finding(key + "|topmost-overwrite", rule="R-TOPMOST", where="%s:%s" % (b.file, line), fn=key,
                             what="transparent_char is overwritten while it may already hold the cell of a higher layer (the topmost transparent cell must win)")
         chk.floor("R-TOPMOST", "stores to transparent_char inside the walk", nstores, 2)
+    state_reset(chk, f)
     return chk.finish("Buffer::get_char analysed (122 blocks): walk order, offset translation (Sub impl of the same layer), visibility and four-sided "
                       "extent facts at each Layer::get_char call (abstract interpretation), skip edges of the extent test, opaque-layer cut-off and "
                       "topmost-transparent-cell discipline.")
+
+
+# ===================================================================================================== R-STATE-RESET
+def _stores_of(b, field):
+    out = set()
+    for bi, k, s in b.stmts():
+        if s["k"] == "assign":
+            proj = s["p"].get("p") or []
+            if proj and proj[-1] != "*" and proj[-1][0] == "f" and proj[-1][2] == field:
+                out.add(bi)
+    return out
+
+
+def state_reset(chk, f):
+    """The two pieces of state get_char's translation and stacking height are read from are re-set on every path of their
+    setters: `Layer::set_offset` clears `preview_offset` (get_offset() prefers the preview) on every path except the early return
+    for a position-locked layer, and `Buffer::get_overlay_layer(index)` stores `overlay_layer_index` on every path.  Otherwise
+    the place / height a layer is composited at depends on the history of earlier calls."""
+    from analysis.expr import ExprBuilder, show
+    cases = [("layer::Layer", "set_offset", "preview_offset", "is_position_locked"),
+             ("buffers::Buffer", "get_overlay_layer", "overlay_layer_index", None)]
+    n = 0
+    for owner, meth, field, exempt in cases:
+        b = f.method(owner, meth)
+        if not chk.anchor(b is not None, "R-STATE-RESET", "anchor missing: %s::%s" % (owner, meth)):
+            continue
+        stores = _stores_of(b, field)
+        if not chk.anchor(bool(stores), "R-STATE-RESET", "%s::%s stores %s" % (owner, meth, field)):
+            continue
+        n += 1
+        eb = ExprBuilder(b)
+        # returns reachable from the entry without passing a store; the edge of a switch on the exempt flag that leads
+        # away from every store (the documented early return) is not followed
+        cut = set()
+        if exempt is not None:
+            for d in range(b.nblocks):
+                t = b.blocks[d]["term"]
+                if t["k"] == "switch" and exempt in show(eb.operand(t["discr"])):
+                    for s2 in b.succ[d]:
+                        if not (b.reachable_from(s2) & stores) and s2 not in stores:
+                            cut.add((d, s2))
+        seen, stack, leaks = set(), [0], []
+        while stack:
+            x = stack.pop()
+            if x in seen or x in stores:
+                continue
+            seen.add(x)
+            if b.blocks[x]["term"]["k"] == "return":
+                leaks.append(x)
+            stack.extend(s2 for s2 in b.succ[x] if (x, s2) not in cut)
+        chk.obligation(not leaks)
+        if leaks:
+            chk.finding("%s::%s|%s-not-reset" % (owner.split("::")[-1], meth, field), rule="R-STATE-RESET", where="%s:%s" % (b.file, b.line), fn="%s::%s" % (owner, meth),
+                        what="%s::%s can return without storing `%s`%s: what get_char composites then depends on an earlier call" % (
+                            owner.split("::")[-1], meth, field, (" on a path that is not the `%s` early return" % exempt) if exempt else ""))
+    chk.floor("R-STATE-RESET", "setters examined", n, 2)
